@@ -505,11 +505,12 @@ fn short(op: &QOp) -> String {
 pub fn main(ctx: &Ctx) {
     ctx.assume("similarity threshold 1.0 (exact-match only) so the designed semantic approximation is not mistaken for staleness");
     ctx.assume("queries whose lanes quantise to the same in-range 16-bit values are the same cache key by documented design; out-of-range (saturating) lanes are not");
-    ctx.assume("schedule part (searcher || writer) is decided by the scheduler engine, not by this sequential part");
+    ctx.assume("schedule part (searcher || writer, parts race_pairs / race_programs): scheduling points are lock operations and API-call boundaries; Euclidean line set-up with a unique exact top-k");
     run_committed_replays(ctx, &C07);
     run_pbt(ctx, &C07, ctx.tier.pick(4_000, 120_000));
+    super::c07s::main(ctx);
 }
 
 pub fn replay(ctx: &Ctx, v: &serde_json::Value) -> Option<i32> {
-    replay_file(ctx, &C07, v)
+    replay_file(ctx, &C07, v).or_else(|| super::c07s::replay(ctx, v))
 }
